@@ -29,7 +29,7 @@ KANI_ASSUMPTIONS = [
 def units_for(pid, tier):
     us = [u for u in KU.all_units() if pid in u["property"]]
     if tier != "thorough":
-        us = [u for u in us if u.get("tier", "quick") == "quick"]
+        us = [u for u in us if (u.get("tier_by_prop") or {}).get(pid, u.get("tier", "quick")) == "quick"]
     return us
 
 
